@@ -46,7 +46,7 @@ func (c12) Budget(tier string) int {
 	if tier == "thorough" {
 		return 5000000
 	}
-	return 200000
+	return 150000
 }
 
 // ---------------------------------------------------------------------------
@@ -266,6 +266,28 @@ func (c12) Generate(seed uint64, i int, tier string) *Scenario {
 		}
 		sc.N["chainy"] = 1
 	}
+	growy := !long && !chainy && r.Chance(1, 20)
+	if growy {
+		// 14-60 keys whose hashes fall into a few residue classes: some chains
+		// fill up (exactly 8, 16 entries) while others stay short, so that growth
+		// happens with full chains, vacated slots and overflow buckets present
+		sc.Keys = nil
+		cnt := r.Pick3(r.Range(14, 20), r.Range(20, 36), r.Range(36, 60))
+		bits := uint(r.Range(1, 4))
+		heavy := uint32(r.Intn(1 << bits))
+		for j := 0; j < cnt; j++ {
+			low := uint32(r.Intn(1 << bits))
+			if r.Chance(3, 5) {
+				low = heavy
+			}
+			h := (uint32(r.U64()) &^ (1<<(bits+2) - 1)) | low
+			if r.Chance(1, 2) {
+				h = (uint32(j+1) << (bits + 2)) | low // distinct, dense above the residue
+			}
+			add(KeySpec{Kind: "sim", ID: int64(j), Hash: h})
+		}
+		sc.N["growy"] = 1
+	}
 	nk := len(sc.Keys)
 	ops := c12dictOps
 	if sc.Family == "set" {
@@ -274,6 +296,9 @@ func (c12) Generate(seed uint64, i int, tier string) *Scenario {
 	n := r.Range(1, 14)
 	if chainy {
 		n = r.Range(20, 70)
+	}
+	if growy {
+		n = r.Range(nk, 3*nk)
 	}
 	if long {
 		n = r.Pick3(600, 3000, 10000)
@@ -319,8 +344,19 @@ func (c12) Generate(seed uint64, i int, tier string) *Scenario {
 					op.Op = r.Pick([]string{"go:set", "st:setitem", "st:updatepairs", "st:eq", "st:or"})
 				}
 			}
+			if growy && r.Chance(4, 5) {
+				ins, del := []string{"go:set", "st:setitem", "st:setdefault"}, []string{"go:delete", "st:popd", "st:popitem"}
+				if sc.Family == "set" {
+					ins, del = []string{"go:insert", "st:add"}, []string{"go:delete", "st:discard", "st:spop"}
+				}
+				if r.Chance(7, 10) {
+					op.Op = r.Pick(ins)
+				} else {
+					op.Op = r.Pick(del)
+				}
+			}
 			if strings.HasPrefix(op.Op, "iter:") || op.Op == "freeze" {
-				if !r.Chance(1, 3) {
+				if !r.Chance(1, 3) || growy {
 					op.Op = ops[r.Intn(len(ops)-3)]
 				}
 			}
@@ -330,6 +366,9 @@ func (c12) Generate(seed uint64, i int, tier string) *Scenario {
 		nargs := r.Range(0, 3)
 		if chainy {
 			nargs = r.Range(0, 14)
+		}
+		if growy {
+			nargs = r.Range(0, 6)
 		}
 		for a := 0; a < nargs; a++ {
 			if long {
